@@ -2,6 +2,15 @@ module verifharness
 
 go 1.24.0
 
-require github.com/pion/interceptor v0.0.0
+require (
+	github.com/pion/interceptor v0.0.0
+	github.com/pion/rtp v1.10.5
+)
+
+require (
+	github.com/pion/logging v0.2.4 // indirect
+	github.com/pion/randutil v0.1.0 // indirect
+	github.com/pion/rtcp v1.2.17 // indirect
+)
 
 replace github.com/pion/interceptor => /repo
